@@ -1,46 +1,65 @@
-(* Reference value for C19: plain negamax over legal moves (no alpha/beta, no move ordering, no TT, no PVS, no null move, no
-   reductions), with one ply of extension for a position in check, capture-only quiescence with stand-pat at the horizon, the
-   engine's static evaluation at the leaves, checkmate scored by distance and stalemate as zero, and the engine's two horizon
-   rules (ply limit, half-move clock = 100).  Game history empty (no repetition can occur).
-   `minimax` is the specification (AlphaBeta.val: plain maximum over all children); `minimax_fast` evaluates the same tree with the
-   verified fail-soft alpha-beta of Spec/AlphaBeta.v and is proved equal -- it is what the extracted oracle runs. *)
-From Coq Require Import NArith ZArith List Bool.
-From JV Require Import Gen.Consts Model.Bits Model.Chess Model.Eval Model.Search Model.SearchChess Spec.AlphaBeta.
+(* Reference value for C19 on chess positions: the generic reference tree of Spec/GameTree.v (plain negamax over the legal
+   successors: no alpha/beta, no move ordering, no TT, no PVS, no null move, no reductions; one ply of extension for a position in
+   check, capture-only quiescence with stand-pat at the horizon, the engine's static evaluation at the leaves, checkmate scored by
+   distance and stalemate as zero, the two horizon rules) instantiated with the chess model.
+   `minimax` is the specification; `minimax_fast` evaluates the same tree, with each node's successors listed most valuable
+   capture first, by the verified fail-soft alpha-beta of Spec/AlphaBeta.v and is proved equal -- it is what the extracted oracle
+   runs (the order cannot change a maximum: AlphaBeta.val_perm). *)
+From Coq Require Import NArith ZArith List Bool Permutation.
+From JV Require Import Gen.Consts Model.Bits Model.Chess Model.Eval Model.Search Model.SearchChess Spec.AlphaBeta Spec.GameTree.
 Import ListNotations.
 Local Open Scope Z_scope.
 
-(* legal successors; most valuable captures first (the order is irrelevant for the value -- it only helps the verified
-   alpha-beta evaluator prune) *)
+Definition c_in_check (g : game) : bool := is_in_check g (white g).
+Notation mnode := (gnode game).
+
+Definition minimax (g : game) (depth : N) : Z :=
+  gminimax game move generate_moves c_make evaluate c_in_check c_half100 FUEL g (N.to_nat depth).
+
+(* legal successors, most valuable captures first *)
 Fixpoint insert_desc (x : Z * game) (l : list (Z * game)) : list (Z * game) :=
   match l with [] => [x] | y :: r => if fst y <? fst x then x :: l else y :: insert_desc x r end.
-Definition successors (g : game) (all : bool) : list game :=
-  map snd (fold_right (fun m acc => match c_make g m with
-                                    | Some g' => insert_desc ((if mcap m then c_cap_score g m else 0), g') acc
-                                    | None => acc end) [] (generate_moves g all)).
+Definition scored_successors (g : game) (ms : list move) : list (Z * game) :=
+  fold_right (fun m acc => match c_make g m with
+                           | Some g' => insert_desc ((if mcap m then c_cap_score g m else 0), g') acc
+                           | None => acc end) [] ms.
+Definition successors (g : game) (all : bool) : list game := map snd (scored_successors g (generate_moves g all)).
 
-(* a search node: position, quiescence?, remaining depth, ply *)
-Record mnode := mkN { n_g : game; n_q : bool; n_depth : nat; n_ply : nat }.
+Definition expand_sorted : mnode -> shape mnode := gexpand_with game evaluate c_in_check c_half100 successors.
+Definition minimax_fast (g : game) (depth : N) : Z := ab mnode expand_sorted FUEL (mkN g false (N.to_nat depth) 0) None None.
 
-Definition expand_q (g : game) (ply : nat) : shape mnode :=
-  let ev := evaluate g in
-  if Nat.ltb (MAXPLY - 1) ply || c_half100 g then Leaf mnode ev
-  else Inner mnode (Some ev) (map (fun g' => mkN g' true 0 (S ply)) (successors g false)).
+Lemma insert_desc_perm x l : Permutation (insert_desc x l) (x :: l).
+Proof.
+  induction l as [|y r IH]; cbn [insert_desc]; [apply Permutation_refl|].
+  destruct (fst y <? fst x); [apply Permutation_refl|].
+  eapply Permutation_trans; [apply perm_skip; exact IH|apply perm_swap].
+Qed.
 
-Definition expand (x : mnode) : shape mnode :=
-  let g := n_g x in let ply := n_ply x in
-  if n_q x then expand_q g ply
-  else if Nat.leb (MAXPLY - 1) ply then Leaf mnode (evaluate g)
-  else if Nat.eqb (n_depth x) 0 || c_half100 g then expand_q g ply
-  else
-    let inchk := is_in_check g (white g) in
-    let nd := if inchk then S (n_depth x) else n_depth x in
-    match successors g true with
-    | [] => Leaf mnode (if inchk then - MATE_VALUE + Z.of_nat ply else 0)
-    | cs => Inner mnode None (map (fun g' => mkN g' false (nd - 1) (S ply)) cs)
-    end.
+Lemma successors_perm g all : Permutation (successors g all) (gsuccs game move generate_moves c_make g all).
+Proof.
+  unfold successors, gsuccs, succs_of. induction (generate_moves g all) as [|m r IH]; cbn [scored_successors fold_right flat_map map].
+  - apply Permutation_refl.
+  - fold (scored_successors g r). destruct (c_make g m) as [g'|]; cbn [app]; [|exact IH].
+    eapply Permutation_trans; [apply Permutation_map; apply insert_desc_perm|]. cbn [map snd]. apply perm_skip. exact IH.
+Qed.
 
-Definition minimax (g : game) (depth : N) : Z := val mnode expand FUEL (mkN g false (N.to_nat depth) 0).
-Definition minimax_fast (g : game) (depth : N) : Z := ab mnode expand FUEL (mkN g false (N.to_nat depth) 0) None None.
+Lemma expand_sorted_perm x : shape_perm mnode (expand_sorted x) (gexpand game move generate_moves c_make evaluate c_in_check c_half100 x).
+Proof.
+  unfold expand_sorted, gexpand, gexpand_with.
+  assert (Q : forall g ply, shape_perm mnode (shape_q game evaluate c_half100 g ply (successors g false))
+                                             (shape_q game evaluate c_half100 g ply (gsuccs game move generate_moves c_make g false))).
+  { intros g ply. unfold shape_q. destruct (_ || _); cbn [shape_perm]; [reflexivity|]. split; [reflexivity|].
+    apply Permutation_map. apply successors_perm. }
+  destruct (n_q x); [apply Q|]. destruct (Nat.leb _ _); [reflexivity|]. destruct (_ || _); [apply Q|].
+  unfold shape_n. pose proof (successors_perm (n_g x) true) as P.
+  destruct (successors (n_g x) true) as [|c cs]; destruct (gsuccs game move generate_moves c_make (n_g x) true) as [|c' cs'].
+  - reflexivity.
+  - apply Permutation_nil in P. discriminate.
+  - apply Permutation_sym, Permutation_nil in P. discriminate.
+  - cbn [shape_perm]. split; [reflexivity|]. apply Permutation_map. exact P.
+Qed.
 
 Theorem minimax_fast_correct g depth : minimax_fast g depth = minimax g depth.
-Proof. apply ab_full_window. Qed.
+Proof.
+  unfold minimax_fast, minimax, gminimax. rewrite ab_full_window. apply val_perm. exact expand_sorted_perm.
+Qed.
